@@ -40,6 +40,7 @@ func checkC03(P *core.Program, R *core.Report) {
 		R.Undecided("C03-table", "-", "tables/c03_ranges.json", "-", err.Error())
 		return
 	}
+	CheckRangeEnforced(P, R, "C03-range-enforced")
 	used := map[string]bool{}
 	type claim struct {
 		key    string
